@@ -54,6 +54,7 @@ func checkCacheKeyIdentity(c *Ctx, rule string) {
 	if pStart == nil || pLimit == nil {
 		fatalf("anchor: (*cache).get(start, limit) parameters not found")
 	}
+	reg := NewRegion(get)
 	isKey := func(v ssa.Value) bool {
 		// key{start, limit}: a struct literal whose two fields are stored from the parameters, in order
 		u, ok := v.(*ssa.UnOp)
@@ -74,12 +75,11 @@ func checkCacheKeyIdentity(c *Ctx, rule string) {
 				}
 			}
 		}
-		return len(got) == 2 && got[0] == ssa.Value(pStart) && got[1] == ssa.Value(pLimit)
+		return len(got) == 2 && reg.Resolve(got[0]) == ssa.Value(pStart) && reg.Resolve(got[1]) == ssa.Value(pLimit)
 	}
 	// all origins of segment values used for returns/stores
 	segOK := func(v ssa.Value) (bool, string) {
-		for _, lf := range phiLeaves(v) {
-			x := lf.Val
+		for _, x := range reg.Leaves(v) {
 			if e, ok := x.(*ssa.Extract); ok {
 				x = e.Tuple
 			}
@@ -92,7 +92,7 @@ func checkCacheKeyIdentity(c *Ctx, rule string) {
 			case *ssa.Alloc:
 				// new segment: must be stored under key{start, limit}
 				stored := false
-				allInstrs(get, func(in ssa.Instruction) {
+				reg.AllInstrs(func(in ssa.Instruction) {
 					if mu, ok := in.(*ssa.MapUpdate); ok && mu.Value == ssa.Value(y) && isLoadOfField(mu.Map, fSegs) && isKey(mu.Key) {
 						stored = true
 					}
@@ -131,22 +131,77 @@ func checkCacheKeyIdentity(c *Ctx, rule string) {
 	}
 	// every getter call passes the same start, limit
 	m := 0
-	for _, ci := range callsIn(get) {
+	for _, ci := range reg.Calls() {
 		call, ok := ci.(*ssa.Call)
-		if !ok {
+		if !ok || call.Call.IsInvoke() {
 			continue
 		}
-		p, isP := call.Call.Value.(*ssa.Parameter)
+		p, isP := reg.Resolve(call.Call.Value).(*ssa.Parameter)
 		if !isP || p.Parent() != get {
+			continue
+		}
+		if _, isFn := p.Type().Underlying().(*types.Signature); !isFn {
 			continue
 		}
 		m++
 		args := call.Call.Args
-		ok = len(args) >= 2 && args[len(args)-2] == ssa.Value(pStart) && args[len(args)-1] == ssa.Value(pLimit)
+		ok = len(args) >= 2 && reg.Resolve(args[len(args)-2]) == ssa.Value(pStart) && reg.Resolve(args[len(args)-1]) == ssa.Value(pLimit)
 		c.Check(rule, fmt.Sprintf("cache.get/getter-call#%d-same-range", m), call.Pos(), ok, "the getter is asked for exactly (start, limit) of this request")
 	}
 	if n == 0 || m == 0 {
 		c.Violation(rule, "cache.get/shape", get.Pos(), "cannot find the returns / getter calls of (*cache).get")
+	}
+}
+
+// checkLogsMergedNotReplaced: eth_getLogs answers are filtered by the asking
+// integration, and the transaction they are attached to lives in a cached
+// block shared with every other task on the source.  The logs fetch may
+// therefore only EXTEND a transaction's log list (Logs.Add, or an append to
+// the list itself), never assign it a list that does not contain the old one.
+func checkLogsMergedNotReplaced(c *Ctx, rule string) {
+	w := c.W
+	logs := w.Fn("jrpc2", "(*Client).logs")
+	fLogs := w.Field("eth", "Receipt", "Logs")
+	reg := NewRegion(logs)
+	n := 0
+	reg.AllInstrs(func(in ssa.Instruction) {
+		st, ok := in.(*ssa.Store)
+		if !ok {
+			return
+		}
+		if f, _ := fieldOf(st.Addr); f != fLogs {
+			return
+		}
+		n++
+		good := true
+		for _, lf := range phiLeaves(st.Val) {
+			v := stripConv(lf.Val)
+			ext := false
+			for d := 0; d < 4; d++ {
+				switch x := v.(type) {
+				case *ssa.Call:
+					if calleeName(x) == "builtin append" {
+						v = stripConv(x.Call.Args[0])
+						continue
+					}
+				case *ssa.Slice:
+					v = stripConv(x.X)
+					continue
+				}
+				break
+			}
+			if lf2, _ := loadedField(v); lf2 == fLogs {
+				ext = true
+			}
+			if !ext {
+				good = false
+			}
+		}
+		c.Check(rule, fmt.Sprintf("logs/Tx.Logs-store#%d-extends", n), st.Pos(), good,
+			"a store to Tx.Logs in the eth_getLogs fetch keeps the logs already attached (by this or another task sharing the cached block)")
+	})
+	if n == 0 {
+		c.OK(rule, "logs/Tx.Logs-only-through-Add", logs.Pos(), "the eth_getLogs fetch never assigns Tx.Logs; it only calls Logs.Add")
 	}
 }
 
@@ -359,21 +414,28 @@ func checkLogsProbe(c *Ctx, rule string) {
 func checkCacheStoresOnlySuccess(c *Ctx, rule string) {
 	w := c.W
 	get := w.Fn("jrpc2", "(*cache).get")
+	reg := NewRegion(get) // get with its single-use helpers (fill, segment, …) inlined
 	segT := w.Named("jrpc2", "segment")
 	isSegField := func(f *types.Var, base ssa.Value) bool {
 		return f != nil && namedOf(base.Type()) == segT && f.Name() != "nreads" && !isMutexType(f.Type())
 	}
+	isGetter := func(v ssa.Value) bool {
+		p, ok := reg.Resolve(v).(*ssa.Parameter)
+		if !ok || p.Parent() != get {
+			return false
+		}
+		_, isFn := p.Type().Underlying().(*types.Signature)
+		return isFn
+	}
 	// getter calls whose result reaches segment state
 	var fetches []*ssa.Call
-	for _, ci := range callsIn(get) {
-		if call, ok := ci.(*ssa.Call); ok {
-			if p, ok := call.Call.Value.(*ssa.Parameter); ok && p.Parent() == get {
-				fetches = append(fetches, call)
-			}
+	for _, ci := range reg.Calls() {
+		if call, ok := ci.(*ssa.Call); ok && !call.Call.IsInvoke() && isGetter(call.Call.Value) {
+			fetches = append(fetches, call)
 		}
 	}
 	n := 0
-	allInstrs(get, func(in ssa.Instruction) {
+	reg.AllInstrs(func(in ssa.Instruction) {
 		st, ok := in.(*ssa.Store)
 		if !ok {
 			return
@@ -390,7 +452,7 @@ func checkCacheStoresOnlySuccess(c *Ctx, rule string) {
 				continue
 			}
 			isNil, _ := nilTestEdges(e)
-			if len(isNil) > 0 && guardedByEdges(get, st, isNil) && dominatesInstr(fetch, st) {
+			if len(isNil) > 0 && reg.Guarded(st, isNil) && reg.Dominates(fetch, st) {
 				good = true
 				// a slice-typed field must receive that fetch's blocks
 				if _, isSl := f.Type().Underlying().(*types.Slice); isSl && st.Val != extractOf(fetch, 0) {
@@ -403,28 +465,37 @@ func checkCacheStoresOnlySuccess(c *Ctx, rule string) {
 	if n == 0 {
 		c.Violation(rule, "cache.get/stores", get.Pos(), "no store into the segment found")
 	}
-	for i, fetch := range fetches {
-		e, _ := errResult(fetch)
+	// a failed fetch makes get return an error: in the function of the fetch and at every call site up to get
+	errorArmOK := func(call *ssa.Call) bool {
+		fn := call.Parent()
+		e, _ := errResult(call)
 		if e == nil {
-			// pass-through `return f(...)` is fine
-			continue
+			return true
 		}
-		passThrough := false
 		if a, b := nilTestEdges(e); len(a) == 0 && len(b) == 0 {
-			for _, r := range returnsOf(get) {
+			for _, r := range returnsOf(fn) {
 				vals := returnValues(r)
-				if len(vals) == 2 && vals[1] == e {
-					passThrough = true
+				if len(vals) > 0 && vals[len(vals)-1] == e {
+					return true // `return f(...)`: the caller sees the error
 				}
 			}
 		}
-		if passThrough {
-			continue // `return f(...)`: the caller sees the error
-		}
 		isNil, nonNil := nilTestEdges(e)
-		okArm := len(nonNil) > 0
+		if len(nonNil) == 0 {
+			return false
+		}
 		for _, ed := range nonNil {
-			if g, _ := errorArmLeaves(get, ed, isNil, nil); !g {
+			if g, _ := errorArmLeaves(fn, ed, isNil, nil); !g {
+				return false
+			}
+		}
+		return true
+	}
+	for i, fetch := range fetches {
+		okArm := true
+		for _, in := range reg.chain(fetch) {
+			call, isCall := in.(*ssa.Call)
+			if !isCall || !errorArmOK(call) {
 				okArm = false
 			}
 		}
@@ -695,30 +766,58 @@ func checkRequiredFieldsIndependent(c *Ctx, rule string) {
 			}
 		}
 	})
-	// tests: calls of the two has* closures with add's name parameter
-	var hasCalls []*ssa.Call
-	for _, ci := range callsIn(add) {
-		if call, ok := ci.(*ssa.Call); ok && len(call.Call.Args) == 1 && call.Call.Args[0] == ssa.Value(add.Params[0]) {
-			hasCalls = append(hasCalls, call)
-		}
-	}
+	// absence tests: boolean calls in add that scan one of the two collections,
+	// either in the body of a function literal they call (hasBD(name)) or
+	// through their argument (slices.ContainsFunc(ig.Block, …))
 	res := NewResolver(w)
+	fieldKind := func(f *types.Var) string {
+		switch f {
+		case fBlock:
+			return "block"
+		case fCols:
+			return "cols"
+		}
+		return ""
+	}
 	kind := func(call *ssa.Call) string { // which collection the predicate scans
+		for _, a := range call.Call.Args {
+			if lf, _ := loadedField(stripConv(a)); lf != nil {
+				if k := fieldKind(lf); k != "" {
+					return k
+				}
+			}
+		}
+		if _, isBuiltin := call.Call.Value.(*ssa.Builtin); isBuiltin {
+			return ""
+		}
 		for _, cal := range res.Callees(call) {
+			if !isRepoFunc(cal) {
+				continue
+			}
 			k := ""
 			allInstrs(cal, func(in ssa.Instruction) {
 				if fa, ok := in.(*ssa.FieldAddr); ok {
-					switch f, _ := fieldOf(fa); f {
-					case fBlock:
-						k = "block"
-					case fCols:
-						k = "cols"
+					if f, _ := fieldOf(fa); fieldKind(f) != "" {
+						k = fieldKind(f)
 					}
 				}
 			})
 			return k
 		}
 		return ""
+	}
+	var hasCalls []*ssa.Call
+	for _, ci := range callsIn(add) {
+		call, ok := ci.(*ssa.Call)
+		if !ok {
+			continue
+		}
+		if b, isB := call.Type().Underlying().(*types.Basic); !isB || b.Kind() != types.Bool {
+			continue
+		}
+		if kind(call) != "" {
+			hasCalls = append(hasCalls, call)
+		}
 	}
 	indep := func(st ssa.Instruction, own, other string) (bool, string) {
 		if st == nil {
